@@ -142,7 +142,7 @@ def run(case):
                 tags.append("op=slice")
                 try:
                     stages.append((cur, list(chain)))
-                    cur = cur[C.to_py_index(st["items"])]
+                    cur = cur[C.to_py_index(st["items"], npint=C.npint_of(case))]
                     chain.append(st["items"])
                     statuses.append("ok")
                 except Exception as e:
@@ -257,7 +257,7 @@ def run(case):
                 try:
                     sib_items = [C.sl()] * (c_k.data.ndim - 1) + [-1] if c_k.data.ndim > 1 else None
                     if sib_items:
-                        sib = c_k[C.to_py_index(sib_items)]
+                        sib = c_k[C.to_py_index(sib_items, npint=C.npint_of(case))]
                         observe(sib, chain_k + [sib_items], f"[sibling slice [..., -1] of intermediate cube {k}] ", False)
                         tags.append("sibling")
                 except Exception as e:
